@@ -138,7 +138,15 @@ func runPropertyRaw(prop, tier string, forBaseline bool) *Report {
 				if o.Status == "discharged" {
 					rep.VacPass++
 				} else if inBase[claimOf(o.Name)] && !forBaseline {
-					rep.Undecided = append(rep.Undecided, o.Name+" (vacuity cover no longer satisfiable: "+fmt.Sprint(o.Answers)+")")
+					// the hypotheses on this path have become contradictory or the
+					// point unreachable: every proof below it is vacuous
+					o.Desc += " (the cover no longer holds: the proofs on this path are vacuous)"
+					c := claimOf(o.Name)
+					if _, seen := violated[c]; !seen {
+						violatedOrder = append(violatedOrder, c)
+					}
+					violated[c] = append(violated[c], o)
+					violatedRes[c] = r
 				}
 				continue
 			}
@@ -318,7 +326,23 @@ func round3(f float64) float64 { return float64(int(f*1000+0.5)) / 1000 }
 // claimName: obligation name without instance ordinal and conjunct number.
 func claimName(name string) string {
 	if k := strings.LastIndex(name, "@"); k >= 0 {
-		return name[:k]
+		name = name[:k]
+	}
+	// obligations that differ only in the callee they concern belong to one
+	// claim of the function: "every call meets its precondition", "every write
+	// and call stays inside `modifies`", "every access follows the lock
+	// discipline" — so that a new call site cannot escape the baseline.
+	if k := strings.LastIndex(name, "#"); k >= 0 {
+		kind := name[k+1:]
+		switch {
+		case strings.HasPrefix(kind, "frame-call:"):
+			kind = "frame"
+		case strings.HasPrefix(kind, "pre:"):
+			kind = "pre"
+		case strings.HasPrefix(kind, "lock:call:"):
+			kind = "lock:call"
+		}
+		name = name[:k+1] + kind
 	}
 	return name
 }
